@@ -38,6 +38,11 @@ func c15File(r *rng, st *stats, inc []string) string {
 		sb.WriteString("account " + pick(r, c20Accts) + "\n")
 	}
 	n := r.rangeInt(2, 5)
+	if r.chance(35) {
+		// a longer file: more than a dozen symbols per answer (sorting routines switch algorithm with the size)
+		n += r.rangeInt(4, 7)
+		st.count("file:long")
+	}
 	for i := 0; i < n; i++ {
 		sb.WriteString(fmt.Sprintf("2024-%02d-%02d %s\n", r.rangeInt(1, 12), r.rangeInt(1, 28), pick(r, c15Payees)))
 		if r.chance(35) {
@@ -70,6 +75,13 @@ func c15Gen(r *rng, st *stats) c15Case {
 	if r.chance(70) {
 		c.Open = append(c.Open, pick(r, []string{"a", "b"}))
 		st.count("open:two-documents")
+		if r.chance(35) {
+			c.Open = []string{"main", "a", "b"}
+			if r.chance(50) {
+				c.Open = []string{"b", "main", "a"}
+			}
+			st.count("open:three-documents")
+		}
 	}
 	return c
 }
